@@ -196,13 +196,17 @@ def cex_steps(res):
 # generation direction
 
 def gen_instance(ctx, name, c, nc, ns, MaxN, MaxJ, length, lean, mode, avoid=True, wmax=2, fifo=True, minimal=False,
-                 track_ids=False):
+                 track_ids=False, death=False):
+    """mode: "witness" (trap invariants Traps), "death" (DeathTraps: expired connections; the lean call set then also
+    drops servers), "simulate" (random behaviours) or the name of an invariant to refute"""
     d = ctx.path("gen", name, "x")[:-2]
     text = ("INIT GenInit\nNEXT GenNext\nCONSTANTS\n"
             + tla_constants(c, MaxN, MaxJ, fifo, True, True, True, avoid, nc, ns, track_ids)
             + f" GenLen = {length}\n GenLean = {B(lean)}\n GenMinimal = {B(minimal)}\n WitnessMax = {wmax}\n"
+            + f" GenDeath = {B(death or mode == 'death')}\n"
             + "CHECK_DEADLOCK FALSE\n"
             + ("VIEW gview\nINVARIANT Traps\n" if mode == "witness"
+               else "VIEW gview\nINVARIANT DeathTraps\n" if mode == "death"
                else "INVARIANT Behaviour\n" if mode == "simulate" else f"VIEW gview\nINVARIANT {mode}\n"))
     write_module(d, "G_" + name, "ReqResGen", "", text)
     return d, "G_" + name
@@ -217,8 +221,10 @@ def _unescape(s):
     return s.encode().decode("unicode_escape")
 
 
-def S(a, c=0, s=0, n=0, j=0):
-    return {"a": a, "c": c, "s": s, "n": n, "j": j, "h": 0}
+def S(a, c=0, s=0, n=0, j=0, sel=0):
+    """one program step; sel = 1 / 2: the first / last object of the kind the action needs that the acting port owns
+    (instead of naming it by n / j)"""
+    return {"a": a, "c": c, "s": s, "n": n, "j": j, "h": 0, "sel": sel}
 
 
 def witness_tail(tag, info):
@@ -230,6 +236,32 @@ def witness_tail(tag, info):
                 S("IsConnectedA", c, s, nb), S("SendCopyResponse", c, s, nb), S("ReceiveResponse", c, 0, nb),
                 S("ReceiveResponse", c, 0, nb), S("DropPending", c, 0, nb), S("IsConnectedA", c, s, nb),
                 S("DropActive", c, s, nb)]
+    if tag == "hint-stale-active":
+        # the stale active request of A is dropped (with and without a late response): B's stream, which carries the
+        # disconnect hint, must stay connected on both sides until B's own ends are dropped
+        return [S("IsConnectedA", c, s, na), S("HasDisconnectHint", c, s, na), S("ReceiveRequest", 0, s),
+                S("HasDisconnectHint", c, s, nb), S("SendCopyResponse", c, s, na), S("DropActive", c, s, na),
+                S("IsConnectedP", c, 0, nb), S("IsConnectedA", c, s, nb), S("HasDisconnectHint", c, s, nb),
+                S("SendCopyResponse", c, s, nb), S("ReceiveResponse", c, 0, nb), S("ReceiveResponse", c, 0, nb),
+                S("DropActive", c, s, nb), S("IsConnectedP", c, 0, nb), S("ReceiveResponse", c, 0, nb),
+                S("DropPending", c, 0, nb)]
+    if tag == "hint-stale-queued":
+        # the server receives: A is discarded (or handed out, fire and forget), B must come out connected
+        return [S("IsConnectedP", c, 0, nb), S("HasRequests", 0, s), S("ReceiveRequest", 0, s), S("ReceiveRequest", 0, s),
+                S("DropActive", c, s, na), S("IsConnectedP", c, 0, nb), S("IsConnectedA", c, s, nb),
+                S("HasDisconnectHint", c, s, nb), S("SendCopyResponse", c, s, nb), S("ReceiveResponse", c, 0, nb),
+                S("DropActive", c, s, nb), S("IsConnectedP", c, 0, nb), S("ReceiveResponse", c, 0, nb),
+                S("DropPending", c, 0, nb)]
+    if tag in ("expired-data-low", "expired-data-high"):
+        # poll the pending response that has nothing to deliver (twice: the client notices that the server is gone and
+        # looks at the expired connection), then the undelivered response must still arrive and the borrowed one must
+        # still be intact (the canary of every held object is re-read after every step)
+        np_ = info.get("np", 0)
+        return [S("ReceiveResponse", c, 0, np_), S("ReceiveResponse", c, 0, np_), S("IsConnectedP", c, 0, np_),
+                S("HasResponse", c, 0, na), S("ReceiveResponse", c, 0, na), S("ReceiveResponse", c, 0, na),
+                S("ReceiveResponse", c, 0, nb), S("DropResponse", c, s, nb, 1), S("DropResponse", c, s, na, 1),
+                S("ReceiveResponse", c, 0, np_), S("DropPending", c, 0, na), S("DropPending", c, 0, nb),
+                S("DropPending", c, 0, np_), S("UpdateClient", c)]
     if tag == "reuse-queued-stale":
         return [S("HasResponse", c, 0, nb), S("ReceiveResponse", c, 0, nb), S("ReceiveResponse", c, 0, nb),
                 S("ReceiveResponse", c, 0, nb), S("IsConnectedP", c, 0, nb), S("DropPending", c, 0, nb)]
@@ -302,16 +334,233 @@ def gen_random(ctx, c, runs, length, tag, stream=0, probes=True, churn=2, api=0)
 
 
 # ------------------------------------------------------------------------------------------------
+# scripted program families (parameterised by the configuration and the chunk count read from the code)
+
+def reuse_programs(c):
+    """Channel-id reuse while a request / active request of the EARLIER owner of the channel is still around, with and
+    without the disconnect hint on the new owner.  One client (slot 1), one server (slot 1).
+    A = request 1; dropping its pending response returns channel 0 to the END of the client's FIFO of channel ids; nreq-1
+    loan+drop pairs rotate the FIFO so that request B (= number nreq+1) gets channel 0 again."""
+    nreq = c["nreq"]
+    nb = nreq + 1
+    progs = []
+    rotate = []
+    for k in range(2, nreq + 1):
+        rotate += [S("LoanRequest", 1), S("DropRequest", 1, 0, k)]
+    observe_b = [S("IsConnectedP", 1, 0, nb), S("ReceiveRequest", 0, 1), S("IsConnectedA", 1, 1, nb),
+                 S("HasDisconnectHint", 1, 1, nb), S("SendCopyResponse", 1, 1, nb), S("ReceiveResponse", 1, 0, nb),
+                 S("ReceiveResponse", 1, 0, nb), S("DropActive", 1, 1, nb), S("IsConnectedP", 1, 0, nb),
+                 S("ReceiveResponse", 1, 0, nb), S("DropPending", 1, 0, nb), S("ReceiveRequest", 0, 1)]
+    for a_received in (True, False):
+        for hint in (True, False):
+            for b_received_first in ((True, False) if a_received else (False,)):
+                for late_response in ((True, False) if a_received else (False,)):
+                    p = [S("CreateServer", 0, 1), S("CreateClient", 1), S("SendCopy", 1)]
+                    if a_received:
+                        p += [S("ReceiveRequest", 0, 1), S("IsConnectedA", 1, 1, 1)]
+                    p += [S("DropPending", 1, 0, 1)] + rotate + [S("SendCopy", 1), S("IsConnectedP", 1, 0, nb)]
+                    if b_received_first:
+                        p += [S("ReceiveRequest", 0, 1), S("IsConnectedA", 1, 1, nb)]
+                    if hint:
+                        p += [S("DisconnectHint", 1, 0, nb), S("IsConnectedP", 1, 0, nb)]
+                        if b_received_first:
+                            p += [S("HasDisconnectHint", 1, 1, nb)]
+                    if a_received:
+                        p += [S("IsConnectedA", 1, 1, 1), S("HasDisconnectHint", 1, 1, 1)]
+                        if late_response:
+                            p += [S("SendCopyResponse", 1, 1, 1)]
+                        p += [S("DropActive", 1, 1, 1)]
+                    else:
+                        # the server looks into its buffer: A is discarded (or handed out: fire and forget)
+                        p += [S("HasRequests", 0, 1), S("ReceiveRequest", 0, 1), S("DropActive", 1, 1, 1)]
+                    progs.append(p + observe_b)
+    return progs
+
+
+def expired_programs(c):
+    """Ports dropped while the other side still has undelivered data on one channel and borrowed chunks on another
+    one: the connection (and the mapped data segment) has to stay until everything is delivered / released.
+    One client, one server; k = min(max_active_requests, 3) requests are pending at once, every role assignment
+    (d: answered, not received; b: answered, received and held; p: polled) is tried."""
+    import itertools
+    k = min(c["ma"], 3)
+    progs = []
+    if k < 2:
+        return progs
+    base = [S("CreateServer", 0, 1), S("CreateClient", 1)] + [S("SendCopy", 1)] * k + [S("ReceiveRequest", 0, 1)] * k
+    reqs = list(range(1, k + 1))
+    for d, b in itertools.permutations(reqs, 2):
+        for p_ in ([b] if c["mb"] >= 2 else []) + [x for x in reqs if x not in (d, b)]:
+            for client_updates_first in (False, True):
+                p = list(base)
+                p += [S("SendCopyResponse", 1, 1, d), S("SendCopyResponse", 1, 1, b), S("ReceiveResponse", 1, 0, b)]
+                p += [S("DropActive", 1, 1, n) for n in reqs] + [S("DropServer", 0, 1)]
+                if client_updates_first:
+                    p += [S("UpdateClient", 1)]
+                p += [S("ReceiveResponse", 1, 0, p_), S("ReceiveResponse", 1, 0, p_), S("IsConnectedP", 1, 0, p_),
+                      S("HasResponse", 1, 0, d), S("ReceiveResponse", 1, 0, d), S("ReceiveResponse", 1, 0, d),
+                      S("ReceiveResponse", 1, 0, b), S("DropResponse", 1, 1, b, 1), S("ReceiveResponse", 1, 0, p_),
+                      S("DropResponse", 1, 1, d, 1), S("UpdateClient", 1)]
+                p += [S("DropPending", 1, 0, n) for n in reqs]
+                progs.append(p)
+    # mirrored: the client goes away while the server holds active requests (request payloads) and has a request queued
+    for keep_queued in (True, False):
+        p = [S("CreateServer", 0, 1), S("CreateClient", 1)] + [S("SendCopy", 1)] * k
+        p += [S("ReceiveRequest", 0, 1)] * (k - 1 if keep_queued else k)
+        p += [S("DropPending", 1, 0, n) for n in reqs] + [S("DropClient", 1), S("UpdateServer", 0, 1)]
+        p += [S("IsConnectedA", 1, 1, n) for n in reqs] + [S("HasRequests", 0, 1), S("ReceiveRequest", 0, 1)]
+        p += [S("DropActive", 1, 1, n) for n in reqs] + [S("ReceiveRequest", 0, 1), S("UpdateServer", 0, 1)]
+        progs.append(p)
+    return progs
+
+
+# ------------------------------------------------------------------------------------------------
+# concurrent executions: one client thread || one server thread under the deterministic scheduler
+
+CONC_BASE = [S("CreateServer", 0, 1), S("CreateClient", 1), S("UpdateServer", 0, 1), S("UpdateClient", 1)]
+
+
+def conc_prestates(c):
+    """name -> sequential prefix"""
+    nreq = c["nreq"]
+    rotate = []
+    for k in range(2, nreq + 1):
+        rotate += [S("LoanRequest", 1), S("DropRequest", 1, 0, k)]
+    pre = {
+        "fresh": [],
+        "queued": [S("SendCopy", 1)],
+        "active": [S("SendCopy", 1), S("ReceiveRequest", 0, 1)],
+        "answered": [S("SendCopy", 1), S("ReceiveRequest", 0, 1), S("SendCopyResponse", 1, 1, 1)],
+        "stale-queued": [S("SendCopy", 1), S("DropPending", 1, 0, 1)],
+        "stale-active": [S("SendCopy", 1), S("ReceiveRequest", 0, 1), S("DropPending", 1, 0, 1)],
+        # the next request reuses the channel of request 1, whose active request / queue entry is still around
+        "reuse-active": [S("SendCopy", 1), S("ReceiveRequest", 0, 1), S("SendCopyResponse", 1, 1, 1),
+                         S("DropPending", 1, 0, 1)] + rotate,
+        "reuse-queued": [S("SendCopy", 1), S("DropPending", 1, 0, 1)] + rotate,
+    }
+    if c["ma"] >= 2:
+        pre["two-active"] = [S("SendCopy", 1), S("SendCopy", 1), S("ReceiveRequest", 0, 1), S("ReceiveRequest", 0, 1),
+                             S("SendCopyResponse", 1, 1, 2)]
+    return {k: CONC_BASE + v for k, v in pre.items()}
+
+
+# thread programs; objects are chosen by selectors (1: oldest, 2: newest object of the port)
+CONC_CLIENT = {
+    "send": [S("SendCopy", 1)],
+    "loan-send": [S("LoanRequest", 1), S("SendRequest", 1, sel=2)],
+    "send-drop": [S("SendCopy", 1), S("DropPending", 1, sel=2)],
+    "send-hint": [S("SendCopy", 1), S("DisconnectHint", 1, sel=2), S("IsConnectedP", 1, sel=2)],
+    "drop": [S("DropPending", 1, sel=1)],
+    "drop-send": [S("DropPending", 1, sel=1), S("SendCopy", 1)],
+    "recv": [S("ReceiveResponse", 1, sel=1), S("ReceiveResponse", 1, sel=1)],
+    "conn-recv": [S("IsConnectedP", 1, sel=1), S("ReceiveResponse", 1, sel=1), S("IsConnectedP", 1, sel=1)],
+    "hint": [S("DisconnectHint", 1, sel=1), S("IsConnectedP", 1, sel=1)],
+    "has-recv-release": [S("HasResponse", 1, sel=1), S("ReceiveResponse", 1, sel=1), S("DropResponse", 1, sel=1)],
+}
+CONC_SERVER = {
+    "recv": [S("ReceiveRequest", 0, 1)],
+    "recv-conn": [S("ReceiveRequest", 0, 1), S("IsConnectedA", 0, 1, sel=2)],
+    "recv-respond": [S("ReceiveRequest", 0, 1), S("SendCopyResponse", 0, 1, sel=2)],
+    "recv-recv": [S("ReceiveRequest", 0, 1), S("ReceiveRequest", 0, 1)],
+    "has-recv-drop": [S("HasRequests", 0, 1), S("ReceiveRequest", 0, 1), S("DropActive", 0, 1, sel=2)],
+    "drop": [S("DropActive", 0, 1, sel=1)],
+    "respond-drop": [S("SendCopyResponse", 0, 1, sel=1), S("DropActive", 0, 1, sel=1)],
+    "conn-hint-respond": [S("IsConnectedA", 0, 1, sel=1), S("HasDisconnectHint", 0, 1, sel=1),
+                          S("SendCopyResponse", 0, 1, sel=1)],
+    "loan-send": [S("LoanResponse", 0, 1, sel=1), S("SendResponse", 0, 1, sel=1)],
+}
+# the final state is observed by a sequential suffix
+CONC_POST = [S("ReceiveRequest", 0, 1), S("ReceiveRequest", 0, 1), S("HasRequests", 0, 1),
+             S("IsConnectedA", 0, 1, sel=1), S("IsConnectedA", 0, 1, sel=2), S("HasDisconnectHint", 0, 1, sel=2),
+             S("IsConnectedP", 1, sel=1), S("IsConnectedP", 1, sel=2),
+             S("SendCopyResponse", 0, 1, sel=1), S("SendCopyResponse", 0, 1, sel=2),
+             S("ReceiveResponse", 1, sel=1), S("ReceiveResponse", 1, sel=1), S("ReceiveResponse", 1, sel=2),
+             S("DropActive", 0, 1, sel=1), S("IsConnectedP", 1, sel=1), S("IsConnectedP", 1, sel=2),
+             S("DropActive", 0, 1, sel=1), S("IsConnectedP", 1, sel=1), S("IsConnectedP", 1, sel=2),
+             S("ReceiveResponse", 1, sel=1), S("ReceiveResponse", 1, sel=2), S("DropPending", 1, sel=1),
+             S("DropPending", 1, sel=1), S("ReceiveRequest", 0, 1)]
+
+# (pre-state, client thread, server thread) combinations in which the two threads work on the same connection
+# state (request queue, channel state, response queue); they are always executed, the rest of the product is sampled
+CONC_CORE = [
+    ("fresh", "send", "recv"), ("fresh", "send", "recv-conn"), ("fresh", "loan-send", "recv-respond"),
+    ("fresh", "send-drop", "recv-conn"), ("fresh", "send-hint", "recv-conn"), ("fresh", "send", "recv-recv"),
+    ("queued", "drop", "recv-conn"), ("queued", "drop-send", "recv-recv"), ("queued", "hint", "recv-conn"),
+    ("active", "drop", "respond-drop"), ("active", "drop", "conn-hint-respond"), ("active", "recv", "respond-drop"),
+    ("active", "hint", "conn-hint-respond"), ("active", "conn-recv", "drop"), ("active", "drop-send", "drop"),
+    ("active", "recv", "loan-send"),
+    ("answered", "recv", "respond-drop"), ("answered", "has-recv-release", "respond-drop"), ("answered", "drop", "respond-drop"),
+    ("stale-queued", "send", "recv"), ("stale-queued", "send-hint", "has-recv-drop"), ("stale-queued", "send", "recv-recv"),
+    ("stale-active", "send", "drop"), ("stale-active", "send-hint", "respond-drop"),
+    ("reuse-active", "send", "drop"), ("reuse-active", "send-hint", "drop"), ("reuse-active", "send-hint", "respond-drop"),
+    ("reuse-active", "send", "recv-respond"),
+    ("reuse-queued", "send", "recv"), ("reuse-queued", "send-hint", "recv-recv"), ("reuse-queued", "send-hint", "has-recv-drop"),
+    ("two-active", "recv", "respond-drop"), ("two-active", "drop", "respond-drop"), ("two-active", "conn-recv", "drop"),
+]
+
+
+def conc_programs(c, seed, core=True, sample=0, random_progs=0, dfs_runs=400, bound=1, random_runs=30):
+    """Concurrent programs for configuration c (one client, one server):
+    the core combinations (depth-first enumeration of the schedules with `bound` preemptions), `sample` further
+    combinations of the product pre-state x client thread x server thread chosen by the seed, and `random_progs`
+    longer random thread programs run under seeded random schedules."""
+    import random
+    rnd = random.Random(seed * 7919 + 17)
+    pres = conc_prestates(c)
+    out = []
+
+    def prog(name, pre, t0, t1, mode, runs, b=bound):
+        return {"name": name, "cfg": driver_cfg(c), "pre": pre, "t0": t0, "t1": t1, "post": CONC_POST, "mode": mode,
+                "bound": b, "runs": runs, "switch": 30}
+
+    chosen = []
+    if core:
+        chosen += [x for x in CONC_CORE if x[0] in pres]
+    rest = [(p, a, b) for p in sorted(pres) for a in sorted(CONC_CLIENT) for b in sorted(CONC_SERVER)
+            if (p, a, b) not in CONC_CORE]
+    rnd.shuffle(rest)
+    chosen += rest[:sample]
+    for (p, a, b) in chosen:
+        out.append(prog(f"{p}:{a}||{b}", pres[p], CONC_CLIENT[a], CONC_SERVER[b], "dfs", dfs_runs))
+    cl_ops = [S("SendCopy", 1), S("SendCopy", 1), S("LoanRequest", 1), S("SendRequest", 1, sel=2), S("DropPending", 1, sel=1),
+              S("DropPending", 1, sel=2), S("ReceiveResponse", 1, sel=1), S("ReceiveResponse", 1, sel=2),
+              S("IsConnectedP", 1, sel=1), S("IsConnectedP", 1, sel=2), S("DisconnectHint", 1, sel=2),
+              S("HasResponse", 1, sel=1), S("DropResponse", 1, sel=1), S("DropRequest", 1, sel=1)]
+    sv_ops = [S("ReceiveRequest", 0, 1), S("ReceiveRequest", 0, 1), S("SendCopyResponse", 0, 1, sel=1),
+              S("SendCopyResponse", 0, 1, sel=2), S("DropActive", 0, 1, sel=1), S("DropActive", 0, 1, sel=2),
+              S("IsConnectedA", 0, 1, sel=1), S("IsConnectedA", 0, 1, sel=2), S("HasDisconnectHint", 0, 1, sel=2),
+              S("HasRequests", 0, 1), S("LoanResponse", 0, 1, sel=2), S("SendResponse", 0, 1, sel=1)]
+    names = sorted(pres)
+    for i in range(random_progs):
+        p = names[rnd.randrange(len(names))]
+        t0 = [cl_ops[rnd.randrange(len(cl_ops))] for _ in range(rnd.randint(4, 7))]
+        t1 = [sv_ops[rnd.randrange(len(sv_ops))] for _ in range(rnd.randint(4, 7))]
+        out.append(prog(f"{p}:random{i}", pres[p], t0, t1, "random", random_runs))
+    return out
+
+
+def exec_conc(ctx, progs, tag, stream=0):
+    """Runs concurrent programs (all of ONE configuration); returns (trace path, driver summary)."""
+    pf = ctx.path("progs", f"{tag}.ndjson")
+    vp.write_ndjson(pf, progs)
+    out = ctx.path("traces", f"{tag}.ndjson")
+    _, so, _ = vp.run_driver(DRV, ["conc", "--progs", pf, "--work", ctx.path("drv", "x")[:-2], "--out", out, "--stream", stream],
+                             timeout=1500, env={"VERIF_SEED": ctx.seed})
+    return out, vp.last_json_line(so)
+
+
+# ------------------------------------------------------------------------------------------------
 # validation direction
 
-def trace_instance(ctx, c, name, allow_known=True, invariants=None):
+def trace_instance(ctx, c, name, allow_known=True, invariants=None, conc=False):
+    """conc: concurrent executions (call / ret records, spec/api/ReqResConcTrace.tla; chunk identities unbound)"""
     d = ctx.path("tr", name, "x")[:-2]
     invs = invariants if invariants is not None else PROPERTY_INVS + CHUNK_INVS
-    text = ("SPECIFICATION TraceSpec\nCONSTANTS\n"
-            + tla_constants(c, 1000000, 1000000, False, False, allow_known)
+    text = (f"SPECIFICATION {'ConcSpec' if conc else 'TraceSpec'}\nCONSTANTS\n"
+            + tla_constants(c, 1000000, 1000000, False, False, allow_known, TrackIds=not conc)
             + "CONSTRAINT Progress\nPOSTCONDITION Accepted\nCHECK_DEADLOCK FALSE\n"
             + "INVARIANTS " + " ".join(invs) + "\nPROPERTY RoutingAction\n")
-    write_module(d, "TR_" + name, "ReqResTrace", "", text)
+    write_module(d, "TR_" + name, "ReqResConcTrace" if conc else "ReqResTrace", "", text)
     return d, "TR_" + name
 
 
@@ -331,8 +580,8 @@ class Verdict:
         self.cfg = None
 
 
-def validate(ctx, c, trace, name, allow_known=True, timeout=1500):
-    d, module = trace_instance(ctx, c, name, allow_known)
+def validate(ctx, c, trace, name, allow_known=True, timeout=1500, conc=False):
+    d, module = trace_instance(ctx, c, name, allow_known, conc=conc)
     v = vp.tlc_trace(d, module, trace, libs=["api"], timeout=timeout)
     out = Verdict()
     out.accepted, out.pos, out.record, out.invariant, out.res = v.accepted, v.pos, v.record, v.invariant, v.res
@@ -345,9 +594,13 @@ def validate(ctx, c, trace, name, allow_known=True, timeout=1500):
 
 
 def fmt_op(r):
-    if r.get("k") != "op":
+    if r.get("k") not in ("op", "call", "ret"):
         return json.dumps(r, sort_keys=True)
+    if r["k"] == "call":
+        return f"[thread {r['t']} calls] {r['a']}(c={r['c']},s={r['s']},n={r['n']},j={r['j']})"
     s = f"{r['a']}(c={r['c']},s={r['s']},n={r['n']},j={r['j']})->{r['r']}"
+    if r["k"] == "ret":
+        s = f"[thread {r['t']} returns] " + s
     if r["ch"] >= 0:
         s += f" ch={r['ch']}"
     if r["x"]:
